@@ -1,19 +1,19 @@
 import subprocess, re, sys, os
 COQ = os.environ.get('VERIF_COQ', '/verif/coq')
 PROPS = {
- 'C01': [('CoreLocal','guarded_call_refused'),('CoreLocal','dereg_zombie_refused'),('CoreLocal','mod_assert_zombie'),('CoreLocal2','no_ctx_mod_assert'),('GuardsModel','lifecycle_table_from_source'),('GuardsModel','wrong_state_refused_per_source'),('CoreInvInst','lifecycle_monotone'),('CoreInvInst','zombie_is_final'),('CoreInvInst','idle_never_reentered'),('CoreLoop','evaluate_idle_without_hook_starts'),('CoreLoop','evaluate_idle_cases')],
- 'C07': [('CoreLocal2','ctxreg_second_refused'),('CoreLocal2','no_ctx_refused'),('CoreLocal2','no_ctx_mod_assert'),('CoreLocal2','ctxdereg_looping_refused'),('CoreLocal2','finalized_refuses_register'),('CoreLocal2','finalize_sets'),('GuardsModel','ctx_table_from_source'),('GuardsModel','no_ctx_refused_per_source'),('CoreLoop','ctx_deregister_releases')],
+ 'C01': [('CoreLocal','guarded_call_refused'),('CoreLocal','dereg_zombie_refused'),('CoreLocal','mod_assert_zombie'),('CoreLocal2','no_ctx_mod_assert'),('GuardsModel','lifecycle_table_from_source'),('GuardsModel','wrong_state_refused_per_source'),('CoreInvInst','lifecycle_monotone'),('CoreInvInst','zombie_is_final'),('CoreInvInst','idle_never_reentered'),('CoreLoop','evaluate_idle_without_hook_starts'),('CoreLoop','evaluate_idle_cases'),('CoreLoop','pause_moves_running_count'),('CoreLoop','resume_moves_running_count'),('CorePass','pass_visits_every_module_once'),('CorePass','eval_pass_evaluates_every_module')],
+ 'C07': [('CoreLocal2','ctxreg_second_refused'),('CoreLocal2','no_ctx_refused'),('CoreLocal2','no_ctx_mod_assert'),('CoreLocal2','ctxdereg_looping_refused'),('CoreLocal2','finalized_refuses_register'),('CoreLocal2','finalize_sets'),('GuardsModel','ctx_table_from_source'),('GuardsModel','no_ctx_refused_per_source'),('CoreLoop','ctx_deregister_releases'),('CorePass','pass_visits_every_module_once'),('GuardsModel','parameter_checks_as_modelled')],
  'C15': [('CoreLocal2','same_name_refused'),('CoreLocal2','deny_pub_refused'),('CoreLocal2','deny_sub_refused'),('CoreLocal2','deny_ctx_hides_context'),('CoreLocal2','reserved_topic_refused'),('CoreLocal2','persist_dereg_refused'),('GuardsModel','pub_table_from_source'),('GuardsModel','sub_table_from_source'),('GuardsModel','deny_pub_refused_per_source'),('GuardsModel','deny_sub_refused_per_source'),('CoreInvInst','lifecycle_monotone')],
  'C16': [('CoreLocal2','unstash_exact'),('CoreLocal2','stash_appends'),('CoreLocal2','stash_high_refused'),('CoreLocal','guarded_call_refused'),('CoreInvInst','stack_and_stash_empty_unless_active')],
  'C17': [('CoreLocal','become_pushes'),('CoreLocal','unbecome_pops'),('CoreLocal','handler_is_top'),('CoreLocal','no_empty_invocation'),('CoreLocal','guarded_call_refused'),('CoreInvInst','stack_and_stash_empty_unless_active')],
- 'C18': [('CoreLocal2','consume_token_spec'),('CoreLocal2','tb_bound'),('CoreLocal2','consume_token_is_tb_step'),('CoreInvInst','tokens_never_exceed_burst'),('GuardsModel','out_of_tokens_refused'),('GuardsModel','token_guarded_calls'),('GuardsModel','token_is_consumed_last'),('GuardsModel','every_api_has_a_row')],
+ 'C18': [('CoreLocal2','consume_token_spec'),('CoreLocal2','tb_bound'),('CoreLocal2','consume_token_is_tb_step'),('CoreInvInst','tokens_never_exceed_burst'),('GuardsModel','out_of_tokens_refused'),('GuardsModel','token_guarded_calls'),('GuardsModel','token_is_consumed_last'),('GuardsModel','every_api_has_a_row'),('GuardsModel','parameter_checks_as_modelled')],
  'C13': [('CoreLocal2','flush_now_cases'),('CoreLocal2','push_evt_user_event'),('CoreLocal2','push_evt_batch_timer')],
- 'C09': [('CoreLocal3','register_present_eexist'),('CoreLocal3','register_absent_adds'),('CoreLocal3','register_bad_prio_refused'),('CoreLocal3','deregister_present_removes'),('CoreLocal3','deregister_absent_noop'),('CoreLocal3','remove_src_entry_exact'),('CoreLocal3','task_dereg_eperm'),('GuardsModel','prio_table_from_source'),('CoreInvS','source_identity_is_fixed'),('CoreStop','drop_sources_clears')],
+ 'C09': [('CoreLocal3','register_present_eexist'),('CoreLocal3','register_absent_adds'),('CoreLocal3','register_bad_prio_refused'),('CoreLocal3','deregister_present_removes'),('CoreLocal3','deregister_absent_noop'),('CoreLocal3','remove_src_entry_exact'),('CoreLocal3','task_dereg_eperm'),('GuardsModel','prio_table_from_source'),('CoreInvS','source_identity_is_fixed'),('CoreStop','drop_sources_clears'),('GuardsModel','parameter_checks_as_modelled')],
  'C02': [('CoreLocal3','tell_copy_ineligible'),('CoreLocal3','tell_copy_appends'),('CoreLocal3','tell_copy_full_drops'),('CoreLocal3','pipe_capacity'),('CoreLocal3','deliver_direct'),('CoreSend','broadcast_reaches_exactly_the_eligible'),('CoreSend','publish_reaches_exactly_the_subscribed'),('CoreSend','tell_reaches_only_the_addressee')],
- 'C08': [('CoreLocal3','tell_copy_appends'),('CoreLocal2','push_evt_user_event'),('CoreSend','broadcast_reaches_exactly_the_eligible'),('CoreSend','publish_reaches_exactly_the_subscribed'),('CoreLoop','process_one_takes_pipe_head')],
+ 'C08': [('CoreLocal3','tell_copy_appends'),('CoreLocal2','push_evt_user_event'),('CoreSend','broadcast_reaches_exactly_the_eligible'),('CoreSend','publish_reaches_exactly_the_subscribed'),('CoreLoop','process_one_takes_pipe_head'),('CoreLoop','pill_delivers_batch_before_stopping')],
  'C04': [('CoreLocal3','href_live'),('CoreLocal3','href_dead_faults'),('CoreLocal3','hunref_not_last'),('CoreLocal3','hunref_last'),('CoreLocal3','hunref_dead_faults'),('CoreLocal6','unfinished_task_disarm_faults'),('CoreLocal6','finished_task_disarm_ok'),('CoreInvH','freed_stays_freed')],
  'C03': [('CoreLocal4','recv_events_ignores_errno'),('CoreLocal4','set_errno_only'),('CoreLocal4','dispatch_cases'),('CoreLocal4','quit_sets_code'),('CoreLocal4','loop_stop_returns_quit_code'),('CoreLocal4','ready_set_sound'),('CoreLocal4','ready_set_bounded'),('CoreLocal2','push_evt_user_event'),('CoreLocal6','stale_readiness_skipped'),('CoreLocal6','path_fire_reaches_every_watch'),('CoreLocal6','path_fire_only_sources'),('CoreInvS','source_identity_is_fixed'),('CoreLoop','loop_returns_for_a_reason')],
- 'C19': [('CoreLocal4','tell_system_shape'),('CoreLocal4','pause_notifies_once'),('CoreLocal4','resume_notifies_once'),('CoreLocal3','tell_copy_ineligible'),('CoreLocal3','tell_copy_appends'),('CoreSend','system_notification_reaches_exactly_the_subscribed')],
+ 'C19': [('CoreLocal4','tell_system_shape'),('CoreLocal4','pause_notifies_once'),('CoreLocal4','resume_notifies_once'),('CoreLocal3','tell_copy_ineligible'),('CoreLocal3','tell_copy_appends'),('CoreSend','system_notification_reaches_exactly_the_subscribed'),('CoreLoop','loop_start_notifies_once')],
  'C14': [('CoreLocal5','mod_assert_other_ctx'),('CoreLocal5','mod_assert_no_ctx'),('CoreLocal5','failed_assert_refuses_everything'),('CoreLocal5','foreign_restores_owner_context'),('CoreLocal5','tell_other_ctx_refused'),('GlobalsModel','inventory_checked'),('GlobalsModel','no_race_given_inventory'),('GlobalsModel','contexts_share_no_unsynchronised_state')],
  'C20': [('CoreLocal3','dtor_ctx_closes_poll_handle'),('CoreLocal3','dtor_src_user_fd'),('CoreLocal3','poll_rm_closes_internal'),('CoreLocal3','poll_rm_idempotent'),('CoreLocal3','poll_add_opens_internal'),('CoreStop','drop_sources_clears')],
 }
@@ -23,7 +23,7 @@ for pid, lst in PROPS.items():
     extra = ' Globals GlobalsModel' if any(f == 'GlobalsModel' for f, _ in lst) else ''
     if any(f in ('CoreInv', 'CoreInvInst') for f, _ in lst): extra += ' CoreInv CoreInvInst'
     if any(f == 'GuardsModel' for f, _ in lst): extra += ' GuardTypes Guards GuardsModel'
-    for mod in ('CoreSend', 'CoreStop', 'CoreLoop', 'CoreInvS', 'CoreInvH'):
+    for mod in ('CoreSend', 'CoreStop', 'CoreLoop', 'CorePass', 'CoreInvS', 'CoreInvH'):
         if any(f == mod for f, _ in lst): extra += ' ' + mod
     q = "From LM Require Import Base CoreTypes CoreModel CoreExec CoreLocal CoreLocal2 CoreLocal3 CoreLocal4 CoreLocal5 CoreLocal6" + extra + ".\nSet Printing Width 110.\nSet Printing Depth 1000.\n"
     for f, l in lst: q += 'Check @%s.%s.\n' % (f, l)
